@@ -111,9 +111,14 @@ def _h(o):
 # --------------------------------------------------------------------------
 
 def load_known(prop):
-    path = os.path.join(VERIF, "known_findings.jsonl")
+    paths = [os.path.join(VERIF, "known_findings.jsonl")]
+    dd = os.path.join(VERIF, "known_findings.d")
+    if os.path.isdir(dd):
+        paths += [os.path.join(dd, n) for n in sorted(os.listdir(dd)) if n.endswith(".jsonl")]
     out = []
-    if os.path.exists(path):
+    for path in paths:
+        if not os.path.exists(path):
+            continue
         for line in open(path):
             line = line.strip()
             if not line or line.startswith("#"):
